@@ -238,6 +238,12 @@ def run(chk):
         "the Coq theorem's hypothesis is the checker MODEL; its agreement with the real checker is the correspondence run of this check",
         "`check accepts => the only documented rules it can miss are the listed ones` is enforced by the oracle of this run, not proved",
     ]
+    if not any(f.get("id") == "ref-binder" for f in chk.findings):
+        # TEMPORARY fallback until the lead merges build/kf-C02.json into known_findings.json (drop after merging)
+        try:
+            chk.findings = json.load(open(os.path.join(vlib.VERIF, "build", "kf-C02.json")))
+        except OSError:
+            pass
     known = c01.load_findings(chk, "C02")
     res = chk.proof_stage("C02", allow_axioms=(), rs2v_units=["CoreNum", "StdNum"])
     dbg = vlib.build_harness("debug")
@@ -379,6 +385,10 @@ def run(chk):
     fails += [f for f in wfails if f["why"].startswith("the checker accepts") or f["why"].startswith("the compiler panicked")]
     chk.coverage["wide_constructs_oracle_only"] = c01.WIDE_CONSTRUCTS
     chk.coverage.update(wstats)
+    mfails, mstats, mrepro = c01.matrix_oracle(chk, dbg, "c02", "C02", known)
+    fails += [f for f in mfails if f["why"].startswith("the checker accepts") or f["why"].startswith("the compiler panicked")]
+    chk.coverage.update(mstats)
+    reproduced |= mrepro
 
     chk.coverage["rule"] = ("seeded generator: valid fragment functions (C01's generator, every integer anchored to i64) with, in 55% of them, one injected "
                             "violation of a documented rule (22 kinds: 14 the checker misses, 8 it enforces) + the 11 witnesses; for EVERY function: real "
